@@ -13,3 +13,4 @@ def run(prog, rep):
     r_valid.run_walk(prog, rep)
     r_valid.run_sticky(prog, rep)
     r_valid.run_cover(prog, rep)
+    r_valid.run_conditions(prog, rep)
